@@ -88,6 +88,9 @@ pub uninterp spec fn spec_is_echild(errno: int) -> bool;
 pub open spec fn fatal_error(w: WaitStatus) -> bool { w.1 == 255 && !spec_is_echild(w.2 as int) }
 #[verifier::external_body]
 pub fn waitpidx(wpid: i32, block: bool, Tracked(k): Tracked<&mut Kernel>) -> (ws: WaitStatus)
+    // C02 / C06: the foreground wait listens to EVERY child (-1): a stage may have left its process group (setsid, a job-control program),
+    // and the events of other jobs' children that arrive meanwhile must be parked, not left unread
+    requires wpid == -1,   //@L C02+C06+C07.wait.listens_to_every_child_not_only_to_the_group
     ensures ws_valid(ws) || (!block && ws.0 == 0 && ws.1 == 0 && ws.2 == 0),
         final(k).delivered == old(k).delivered.push(ws),
         final(k).reap == old(k).reap && final(k).kill == old(k).kill && final(k).stop == old(k).stop && final(k).cont == old(k).cont,
@@ -231,7 +234,7 @@ def ext(fn):
 
 
 def ws_fn(name, ens=None, req=None):
-    return Fn(T, name, impl='WaitStatus', ret='r', ensures=[('C02+C06.ws.%s' % name, ens)] if ens else [],
+    return Fn(T, name, impl='WaitStatus', ret='r', ensures=[('C02+C06+C07.ws.%s' % name, ens)] if ens else [],
               requires=[('C05.pre.ws_valid', 'ws_valid(*self)')] if req else [])
 
 
@@ -246,9 +249,9 @@ WS_FNS = [
 mark_job_as_done = Fn(J, 'mark_job_as_done', rewrites=RW,
     requires=[('C06.pre.wf', 'wf(old(sh).jobs@)')],
     ensures=[
-        ('C06.done.wf', 'wf(final(sh).jobs@)'),
-        ('C06.done.absent_unchanged', '!has_gid(old(sh).jobs@, gid) ==> final(sh).jobs@ == old(sh).jobs@'),
-        ('C06.done.pid_removed_job_dropped_when_empty',
+        ('C06+C07.done.wf', 'wf(final(sh).jobs@)'),
+        ('C06+C07.done.absent_unchanged', '!has_gid(old(sh).jobs@, gid) ==> final(sh).jobs@ == old(sh).jobs@'),
+        ('C06+C07.done.pid_removed_job_dropped_when_empty',
          'has_gid(old(sh).jobs@, gid) ==> exists|k: i32| old(sh).jobs@.contains_key(k) && #[trigger] old(sh).jobs@[k].gid == gid '
          '&& same_but(final(sh).jobs@, old(sh).jobs@, k) '
          '&& ((!final(sh).jobs@.contains_key(k) && forall|p: i32| old(sh).jobs@[k].pids@.contains(p) ==> p == pid) '
@@ -257,40 +260,40 @@ mark_job_as_done = Fn(J, 'mark_job_as_done', rewrites=RW,
     ],
     let_types={})
 mark_job_as_done.ensures.append(
-    ('C06.done.stopped_when_only_stopped_members_remain',
+    ('C06+C07.done.stopped_when_only_stopped_members_remain',
      'forall|k: i32| final(sh).jobs@.contains_key(k) && #[trigger] final(sh).jobs@[k].gid == gid ==> '
      '((forall|i: int| 0 <= i < final(sh).jobs@[k].pids@.len() ==> final(sh).jobs@[k].pids_stopped@.contains(final(sh).jobs@[k].pids@[i])) '
      ' ==> final(sh).jobs@[k].status@ == "Stopped"@)'))
 
 jc_stopped = Fn(J, 'mark_job_as_stopped', rewrites=RW,
     requires=[('C06.pre.wf', 'wf(old(sh).jobs@)')],
-    ensures=[('C06.jc_stopped.wf', 'wf(final(sh).jobs@)'),
-             ('C06.jc_stopped.view', '(!has_gid(old(sh).jobs@, gid) ==> final(sh).jobs@ == old(sh).jobs@) && final(sh).jobs@.dom() == old(sh).jobs@.dom()'),
-             ('C06.jc_stopped.whole_view',
+    ensures=[('C06+C07.jc_stopped.wf', 'wf(final(sh).jobs@)'),
+             ('C06+C07.jc_stopped.view', '(!has_gid(old(sh).jobs@, gid) ==> final(sh).jobs@ == old(sh).jobs@) && final(sh).jobs@.dom() == old(sh).jobs@.dom()'),
+             ('C06+C07.jc_stopped.whole_view',
               'has_gid(old(sh).jobs@, gid) ==> exists|k: i32| old(sh).jobs@.contains_key(k) && #[trigger] old(sh).jobs@[k].gid == gid '
               '&& final(sh).jobs@.contains_key(k) && same_but(final(sh).jobs@, old(sh).jobs@, k) '
               '&& final(sh).jobs@[k].pids_stopped@ == old(sh).jobs@[k].pids_stopped@ && final(sh).jobs@[k].status@ == "Stopped"@ '
               '&& final(sh).jobs@[k].pids@ == old(sh).jobs@[k].pids@ && final(sh).jobs@[k].id == k && final(sh).jobs@[k].gid == gid')])
 jc_member_stopped = Fn(J, 'mark_job_member_stopped', rewrites=RW + [Rw('unsafe { libc::getpgid(pid) }', 'vx_getpgid(pid)', rule='R8', required=False)],
     requires=[('C06.pre.wf', 'wf(old(sh).jobs@)')],
-    ensures=[('C06.jc_member_stopped.wf', 'wf(final(sh).jobs@)'),
-             ('C06.jc_member_stopped.dom', 'final(sh).jobs@.dom() == old(sh).jobs@.dom()'),
-             ('C06.jc_member_stopped.stopped_iff_all_stopped',
+    ensures=[('C06+C07.jc_member_stopped.wf', 'wf(final(sh).jobs@)'),
+             ('C06+C07.jc_member_stopped.dom', 'final(sh).jobs@.dom() == old(sh).jobs@.dom()'),
+             ('C06+C07.jc_member_stopped.stopped_iff_all_stopped',
               'forall|k: i32| final(sh).jobs@.contains_key(k) && #[trigger] final(sh).jobs@[k].gid == gid && gid != 0 ==> '
               '((forall|i: int| 0 <= i < final(sh).jobs@[k].pids@.len() ==> final(sh).jobs@[k].pids_stopped@.contains(final(sh).jobs@[k].pids@[i])) '
               ' ==> final(sh).jobs@[k].status@ == "Stopped"@)')])
 jc_member_continued = Fn(J, 'mark_job_member_continued', rewrites=RW + [Rw('unsafe { libc::getpgid(pid) }', 'vx_getpgid(pid)', rule='R8', required=False)],
     requires=[('C06.pre.wf', 'wf(old(sh).jobs@)')],
-    ensures=[('C06.jc_member_continued.wf', 'wf(final(sh).jobs@)'),
-             ('C06.jc_member_continued.dom', 'final(sh).jobs@.dom() == old(sh).jobs@.dom()'),
-             ('C06.jc_member_continued.running_when_a_member_runs',
+    ensures=[('C06+C07.jc_member_continued.wf', 'wf(final(sh).jobs@)'),
+             ('C06+C07.jc_member_continued.dom', 'final(sh).jobs@.dom() == old(sh).jobs@.dom()'),
+             ('C06+C07.jc_member_continued.running_when_a_member_runs',
               'has_gid(old(sh).jobs@, gid) ==> exists|k: i32| old(sh).jobs@.contains_key(k) && #[trigger] old(sh).jobs@[k].gid == gid '
               '&& final(sh).jobs@.contains_key(k) && final(sh).jobs@[k].gid == gid && final(sh).jobs@[k].status@ == "Running"@ '
               '&& !final(sh).jobs@[k].pids_stopped@.contains(pid)')])
 jc_running = Fn(J, 'mark_job_as_running', rewrites=RW,
     requires=[('C06.pre.wf', 'wf(old(sh).jobs@)')],
-    ensures=[('C06.jc_running.wf', 'wf(final(sh).jobs@)'), ('C06.jc_running.dom', 'final(sh).jobs@.dom() == old(sh).jobs@.dom()'),
-             ('C06.jc_running.whole_view',
+    ensures=[('C06+C07.jc_running.wf', 'wf(final(sh).jobs@)'), ('C06+C07.jc_running.dom', 'final(sh).jobs@.dom() == old(sh).jobs@.dom()'),
+             ('C06+C07.jc_running.whole_view',
               '(!has_gid(old(sh).jobs@, gid) ==> final(sh).jobs@ == old(sh).jobs@) && (has_gid(old(sh).jobs@, gid) ==> exists|k: i32| old(sh).jobs@.contains_key(k) && #[trigger] old(sh).jobs@[k].gid == gid '
               '&& final(sh).jobs@.contains_key(k) && same_but(final(sh).jobs@, old(sh).jobs@, k) '
               '&& final(sh).jobs@[k].pids_stopped@ =~= Set::<i32>::empty() && final(sh).jobs@[k].status@ == "Running"@ && final(sh).jobs@[k].is_bg == bg '
@@ -312,40 +315,40 @@ wait_fg_job = Fn(J, 'wait_fg_job', ret='r', rewrites=RW,
     requires=[('C06.pre.wf', 'wf(old(sh).jobs@)'), ('C06.pre.pids_positive', 'forall|i: int| 0 <= i < pids@.len() ==> (#[trigger] pids@[i]) > 0'),
               ('C06.pre.pids_distinct', 'pids@.no_duplicates()')],
     ensures=[
-        ('C06.wait.wf', 'wf(final(sh).jobs@)'),
+        ('C06+C07.wait.wf', 'wf(final(sh).jobs@)'),
         ('C06+C07.wait.no_background_event_lost',
          'forall|i: int| ' + NEW_EVENTS.replace('K', 'final(k)') + ' && !pids@.contains((#[trigger] final(k).delivered[i]).0) '
          '&& 0 <= final(k).delivered[i].1 <= 3 && final(k).delivered[i].0 > 0 ==> parked(*final(k), final(k).delivered[i])'),
-        ('C02.wait.status_is_last_stage_status',
+        ('C02+C03.wait.status_is_last_stage_status',
          'pids@.len() > 0 ==> (final(k).delivered.len() > old(k).delivered.len() && fatal_error(final(k).delivered.last())) '
          '|| r.status as int == last_status(final(k).delivered, old(k).delivered.len() as int, final(k).delivered.len() as int, pids@.last(), 0)'),
         # THE PROPERTY: the wait returns exactly when each member has exited or is stopped (and has not been continued since)
         ('C02+C06+C07.wait.returns_when_every_member_has_exited_or_is_stopped',
          'pids@.len() > 0 && !(final(k).delivered.len() > old(k).delivered.len() && final(k).delivered.last().1 == 255) ==> '
          'forall|p: i32| pids@.contains(p) ==> #[trigger] settled_at(final(k).delivered, old(k).delivered.len() as int, final(k).delivered.len() as int, p)'),
-        ('C02+C06.wait.returns_only_when_every_stage_reported',
+        ('C02+C06+C07.wait.returns_only_when_every_stage_reported',
          'pids@.len() > 0 && !(final(k).delivered.len() > old(k).delivered.len() && final(k).delivered.last().1 == 255) ==> '
          'forall|p: i32| pids@.contains(p) ==> exists|i: int| ' + NEW_EVENTS.replace('K', 'final(k)') +
          ' && (#[trigger] final(k).delivered[i]).0 == p && 0 <= final(k).delivered[i].1 <= 2'),
     ],
     loops={0: Loop(invariant=[
-        ('C06.inv.wait.wf', 'wf(sh.jobs@)'),
-        ('C06.inv.wait.stream', 'old(k).delivered.len() <= k.delivered.len() && count_child == pids@.len() && pids@.len() > 0 && *pid_last == pids@.last() && pids@.no_duplicates() '
+        ('C06+C07.inv.wait.wf', 'wf(sh.jobs@)'),
+        ('C06+C07.inv.wait.stream', 'old(k).delivered.len() <= k.delivered.len() && count_child == pids@.len() && pids@.len() > 0 && *pid_last == pids@.last() && pids@.no_duplicates() '
                                 '&& forall|i: int| 0 <= i < pids@.len() ==> (#[trigger] pids@[i]) > 0'),
         ('C06+C07.inv.wait.parked',
          'forall|i: int| ' + NEW_EVENTS.replace('K', 'k') + ' && !pids@.contains((#[trigger] k.delivered[i]).0) '
          '&& 0 <= k.delivered[i].1 <= 3 && k.delivered[i].0 > 0 ==> parked(*k, k.delivered[i])'),
-        ('C06.inv.wait.events_valid', 'forall|i: int| ' + NEW_EVENTS.replace('K', 'k') + ' ==> ws_valid(#[trigger] k.delivered[i])'),
+        ('C06+C07.inv.wait.events_valid', 'forall|i: int| ' + NEW_EVENTS.replace('K', 'k') + ' ==> ws_valid(#[trigger] k.delivered[i])'),
     ], invariant_except_break=[
         ('C02+C06+C07.inv.wait.settled_is_the_set_of_members_that_exited_or_are_stopped',
          'settled@.finite() && (forall|p: i32| #[trigger] settled@.contains(p) ==> pids@.contains(p) && settled_at(k.delivered, old(k).delivered.len() as int, k.delivered.len() as int, p)) '
          '&& (forall|p: i32| pids@.contains(p) && #[trigger] settled_at(k.delivered, old(k).delivered.len() as int, k.delivered.len() as int, p) ==> settled@.contains(p))'),
-        ('C02.inv.wait.status', 'cmd_result.status as int == last_status(k.delivered, old(k).delivered.len() as int, k.delivered.len() as int, pids@.last(), 0)'),
+        ('C02+C03.inv.wait.status', 'cmd_result.status as int == last_status(k.delivered, old(k).delivered.len() as int, k.delivered.len() as int, pids@.last(), 0)'),
     ], ensures=[
         ('C02+C06+C07.inv.wait.exit_when_every_member_settled',
          '(k.delivered.len() > old(k).delivered.len() && k.delivered.last().1 == 255) '
          '|| forall|p: i32| pids@.contains(p) ==> #[trigger] settled_at(k.delivered, old(k).delivered.len() as int, k.delivered.len() as int, p)'),
-        ('C02.inv.wait.exit_status',
+        ('C02+C03.inv.wait.exit_status',
          '(k.delivered.len() > old(k).delivered.len() && fatal_error(k.delivered.last())) '
          '|| cmd_result.status as int == last_status(k.delivered, old(k).delivered.len() as int, k.delivered.len() as int, pids@.last(), 0)'),
     ])},
@@ -369,7 +372,7 @@ UNIT = Unit('U-WAIT', TEMPLATE,
          ext(u_jobs.mark_job_member_stopped), ext(u_jobs.mark_job_as_running), ext(u_jobs.mark_job_as_stopped), ext(u_jobs.remove_pid_from_job)]
         + WS_FNS + [mark_job_as_done, jc_stopped, jc_member_stopped, jc_member_continued, jc_running,
            Fn(T, 'new', impl='CommandResult', ret='r', ensures=[('C02.cr.new', 'r.status == 0 && r.gid == 0')]),
-           Fn(T, 'from_status', impl='CommandResult', ret='r', ensures=[('C02.cr.from_status', 'r.status == status && r.gid == gid')]), wait_fg_job],
+           Fn(T, 'from_status', impl='CommandResult', ret='r', ensures=[('C02+C03.cr.from_status', 'r.status == status && r.gid == gid')]), wait_fg_job],
     types=[TypeItem(T, 'struct', 'WaitStatus', rewrites=[Rw('WaitStatus(i32, i32, i32)', 'WaitStatus(pub i32, pub i32, pub i32)', rule='R13', why='field visibility only (single-module unit file)')]), TypeItem(T, 'struct', 'Job'), TypeItem(T, 'struct', 'CommandResult'),
            TypeItem('src/shell.rs', 'struct', 'Shell', rewrites=[Rw('types::Job', 'Job', rule='R0')])],
     props=('C06', 'C02', 'C05'))
